@@ -1091,6 +1091,48 @@ def signed_zero_scenarios(run: Run, impl: Impl):
     return n
 
 
+def equal_literal_scenarios(run: Run, impl: Impl):
+    """Literals that are EQUAL as Python objects but are different operands (1 / 1.0 / True, 2 / 2.0, 0 / 0.0 / False), used one after
+    the other with the SAME Var inside ONE operator_overloading block: every expression must come out exactly as it does alone in a
+    fresh block (result type or exception class) - the single expressions themselves are judged against numpy by the main sweep."""
+    np = impl.np
+    n = 0
+    groups = [[1, 1.0, True], [2, 2.0], [0.0, 0, False], [True, 1, 1.0], [2.0, 2]]
+    exprs = {"add": lambda x, c: x + c, "radd": lambda x, c: c + x, "mul": lambda x, c: x * c, "sub": lambda x, c: x - c, "rsub": lambda x, c: c - x,
+             "floordiv": lambda x, c: x // c, "truediv": lambda x, c: x / c}
+
+    def outcome(f, x, c):
+        try:
+            v = f(x, c)
+            return ("var", str(v.type))
+        except Exception as e:  # noqa: BLE001
+            return ("exc", type(e).__name__)
+
+    for op in impl.opsets[:2]:
+        for dt in (np.int64, np.int32, np.float32, np.float64):
+            for tp in (True, False):
+                for grp in groups:
+                    for name, f in exprs.items():
+                        if name in ("floordiv", "truediv") and any(c == 0 for c in grp):
+                            continue
+                        x = impl.argument(impl.Tensor(dt, (3,)))
+                        alone = []
+                        for c in grp:
+                            with impl.F.operator_overloading(op, type_promotion=tp, constant_promotion=True):
+                                alone.append(outcome(f, x, c))
+                        with impl.F.operator_overloading(op, type_promotion=tp, constant_promotion=True):
+                            together = [outcome(f, x, c) for c in grp]
+                        n += len(grp)
+                        if together != alone:
+                            k = next(i for i in range(len(grp)) if together[i] != alone[i])
+                            run.fail("impl", f"C17/equal-literals-in-one-block/{name}",
+                                     f"{name} of a {np.dtype(dt).name} Var with the literal {grp[k]!r}, used after {grp[:k]!r} in the same block "
+                                     f"(type_promotion={tp}), gives {together[k]} but {alone[k]} when it is the first expression of a block",
+                                     {"dtype": np.dtype(dt).name, "type_promotion": tp, "literals": [repr(c) for c in grp], "alone": alone, "in_one_block": together,
+                                      "module": op.__name__})
+    return n
+
+
 def run(run: Run) -> int:
     ok = run.check_theorems(PROPS, CONE, thorough_coqchk=False)
     if run.tier == "thorough" and ok:
@@ -1116,6 +1158,7 @@ def run(run: Run) -> int:
         sh_ = f"{tuple(c['sx'])}x{tuple(c['sy'])}"
         hist["shapes"][sh_] = hist["shapes"].get(sh_, 0) + 1
     n_zero = signed_zero_scenarios(run, impl)
+    n_eqlit = equal_literal_scenarios(run, impl)
     recs, triples, bad, stats = evaluate(run, impl, cases, rt_body, prop_every=(3 if run.tier == "quick" else 2), hist=hist)
     real = report_model_mismatches(run, rt_body, recs, bad, stats)
     distinct = {json.dumps([c["d"], c["op"], c["x"][:2], None if c["y"] is None else c["y"][:2]]) for c in cases}
@@ -1126,8 +1169,9 @@ def run(run: Run) -> int:
             samples.append({"expression": describe(r["case"]), "implementation": r["coq"] or r.get("other"),
                             "onnxruntime": None if "got" not in r else {"dtype": str(r["got"].dtype), "values": r["got"].tolist()}})
     cov = {
-        "evaluations": len(cases) + n_zero,
+        "evaluations": len(cases) + n_zero + n_eqlit,
         "signed_zero_comparisons": n_zero,
+        "equal_literals_in_one_block_expressions": n_eqlit,
         "distinct_nontrivial": len(distinct),
         "rule": "operator x promotion setting (or outside any block) x operand kinds (Var of 12 element types, Python int, Python float, "
                 "numpy scalar of 12 dtypes; scalars on either side) x broadcasting shape pair; distinct by (setting, operator, operand kinds/"
